@@ -14,7 +14,7 @@ import sys
 import time
 
 VERIF = os.path.dirname(os.path.dirname(os.path.abspath(__file__)))
-WT = "/tmp/seed-sweep/repo"
+WT = os.environ.get("SWEEP_WT", "/tmp/seed-sweep/repo")
 ENV = dict(os.environ, GOFLAGS="-mod=mod", GOPROXY="off", YTK_REPO=WT)
 ENV.pop("GOSUMDB", None)
 ENV.pop("GOTOOLCHAIN", None)
